@@ -812,9 +812,9 @@ def call_dictmeth(e, st, d: VDict, name, args, node, kwargs=None):
     if name == 'keys' and not args:
         yield st, VDictKeys(d)
     elif name == 'values' and not args:
-        yield st, st.new_list(d.values_list())
+        yield st, st.freeze(st.new_list(d.values_list()))
     elif name == 'items' and not args:
-        yield st, VZip((st.new_list(d.keys_list()), st.new_list(d.values_list())))
+        yield st, VZip((st.freeze(st.new_list(d.keys_list())), st.freeze(st.new_list(d.values_list()))))
     elif name == 'get' and len(args) in (1, 2):
         key = e.dict_key(st, d, args[0])
         dflt = args[1] if len(args) == 2 else VNone()
@@ -827,6 +827,8 @@ def call_dictmeth(e, st, d: VDict, name, args, node, kwargs=None):
 
 
 def call_listmeth(e, st, ref: VListRef, name, args, node, kwargs=None):
+    if st.is_frozen(ref) and name in ('append', 'pop', 'insert', 'extend', 'clear', 'remove', 'sort', 'reverse'):
+        raise Unsupported(f"list.{name} on a list held in a read-only dict")
     l = st.lists[ref.lid]
     site = e.site(st, 'call')
     if name == 'append':
